@@ -36,7 +36,7 @@ Judge(e) ==
                     IF r[2] THEN <<"Wrap refused a key of 16..8192 octets", BytesToHex(r[3])>>
                     ELSE <<"Wrap accepted a key outside 16..8192 octets", "FAIL">>
              ELSE IF e.ok /\ e.out # BytesToHex(r[3]) THEN <<"wrapping differs from RFC 5649", BytesToHex(r[3])>>
-             ELSE IF e.ok /\ e.out2 # e.out THEN <<"Wrap not deterministic", BytesToHex(r[3])>>
+             ELSE IF e.ok /\ e.out2 # "=" /\ e.out2 # e.out THEN <<"Wrap not deterministic", BytesToHex(r[3])>>
              ELSE <<>>
     [] e.ev = "unwrap" ->
          LET r == RefUnwrap(e, HexToBytes(e.key), HexToBytes(e.ct))
